@@ -36,6 +36,7 @@ from mc.harness import TimeBudget
 from mc.harness import chunks
 from mc.harness import cpu_budget
 from mc.harness import h64
+from mc.vloop import run_solo
 
 ID = "C06"
 LEVEL = "exploration"
@@ -160,10 +161,15 @@ def measure(main: str, templates: dict[str, str], data: dict[str, Any]) -> tuple
         ctx_mod.StringIO, tmpl_mod.StringIO = old_c, old_t  # type: ignore[misc]
 
 
-def _limited(templates: dict[str, str], limits: dict[str, Any], main: str, data: dict[str, Any]) -> tuple[str, Any]:
+def _limited(templates: dict[str, str], limits: dict[str, Any], main: str, data: dict[str, Any], mode: str = "sync") -> tuple[str, Any]:
     env = impl.make_env(templates=templates, shopify=True, limits=limits)
     try:
         with cpu_budget(10.0):
+            if mode == "async":
+                kind, val = run_solo(env.from_string(main).render_async(**data))
+                if kind != "ok":
+                    raise val
+                return ("ok", val)
             return ("ok", env.from_string(main).render(**data))
     except TimeBudget:
         return ("timeout", None)
@@ -230,7 +236,7 @@ def check_nest(kinds: tuple[str, ...], lengths: tuple[int, ...], res: ShardResul
     case_base = {"kinds": list(kinds), "lengths": list(lengths)}
     saw_fail = saw_ok = False
     # ---- output limit sweep
-    for L in range(1, T + 2):
+    for L in range(0, T + 2):  # (0 is a limit too: nothing may be written)
         if only is not None and only != ("output", L):
             continue
         got = _limited(templates, {"output_stream_limit": L}, main, data)
@@ -276,6 +282,16 @@ def check_nest(kinds: tuple[str, ...], lengths: tuple[int, ...], res: ShardResul
             out.append((f"C06:loop-limit-wrong-outcome:{got[0]}:{got[1]}", extra, "output or LoopIterationLimitError", list(got)))
     if res is not None and saw_fail and saw_ok:
         res.nontrivial.add(h64([kinds, lengths, "loop"]))
+    # ---- the asynchronous twins of the loop constructs, at the boundary values of both limits
+    for kind_, L in [("loop", x) for x in (B - 1, B, B + 1) if x >= 1] + [("output", x) for x in (N - 1, N, T, T + 1) if x >= 0]:
+        if only is not None and only != (kind_ + "-async", L):
+            continue
+        key = "loop_iteration_limit" if kind_ == "loop" else "output_stream_limit"
+        s_, a_ = _limited(templates, {key: L}, main, data), _limited(templates, {key: L}, main, data, "async")
+        if res is not None:
+            res.evaluations += 2
+        if s_ != a_:
+            out.append((f"C06:{kind_}-limit-async-differs:{_boundary(kinds)}", {**case_base, "limit_kind": kind_ + "-async", "limit": L}, list(s_), list(a_)))
     if res is not None:
         res.outcomes.add(h64([N > 0, M, B]))
     return out
@@ -331,20 +347,22 @@ def check_sequel(p: int, kinds: tuple[str, ...], lengths: tuple[int, ...], res: 
     for L in range(1, B + 3):
         if only is not None and only != L:
             continue
-        got = _limited(templates, {"loop_iteration_limit": L}, main, data)
-        if res is not None:
-            res.evaluations += 1
-        extra = {**case_base, "limit_kind": "loop", "limit": L, "product_bound": B}
-        if got[0] == "ok":
-            saw_ok = True
-            if got[1] != out0:
-                out.append(("C06:loop-limit-changes-output", extra, out0, got[1]))
-        elif got == ("liquid", "LoopIterationLimitError"):
-            saw_fail = True
-            if L >= B:
-                out.append((f"C06:loop-limit-not-exceeded-but-error:after-prefix-{p}", extra, out0, list(got)))
-        else:
-            out.append((f"C06:loop-limit-wrong-outcome:{got[0]}:{got[1]}", extra, "output or LoopIterationLimitError", list(got)))
+        for mode in ("sync", "async"):
+            got = _limited(templates, {"loop_iteration_limit": L}, main, data, mode)
+            if res is not None:
+                res.evaluations += 1
+            extra = {**case_base, "limit_kind": "loop", "limit": L, "product_bound": B, "mode": mode}
+            tag = "" if mode == "sync" else ":async"
+            if got[0] == "ok":
+                saw_ok = True
+                if got[1] != out0:
+                    out.append((f"C06:loop-limit-changes-output{tag}", extra, out0, got[1]))
+            elif got == ("liquid", "LoopIterationLimitError"):
+                saw_fail = True
+                if L >= B:
+                    out.append((f"C06:loop-limit-not-exceeded-but-error{tag}:after-prefix-{p}", extra, out0, list(got)))
+            else:
+                out.append((f"C06:loop-limit-wrong-outcome{tag}:{got[0]}:{got[1]}", extra, "output or LoopIterationLimitError", list(got)))
     if res is not None:
         if saw_fail and saw_ok:
             res.nontrivial.add(h64([p, kinds, lengths, "sequel"]))
